@@ -48,8 +48,9 @@ def draw_env(rng, tool, force_stdin=False):
         else:
             ik = rng.choice(ins) if rng.random() < 0.6 else "path"
         ok = rng.choice(outs) if rng.random() < 0.6 else "path"
+        pre = rng.choice((1, 100, 10_000, 1_000_000)) if ok == "path" and rng.random() < 0.35 else 0
         e = Env(ik, ok, rng.choice(CHUNK_KINDS), rng.choice(CHUNK_KINDS),
-                rng.getrandbits(32), rng.getrandbits(32))
+                rng.getrandbits(32), rng.getrandbits(32), pre)
         if env_valid(tool, e):
             return e
     return Env()
@@ -442,6 +443,10 @@ def real_cli(tool, opts, data, env, tmpdir):
             argv.append("-")
     if env.out_kind == "path":
         argv.append(outp)
+        if env.out_pre:
+            import random as _r
+            with open(outp, "wb") as f:
+                f.write(_r.Random(env.out_seed).randbytes(env.out_pre))
     elif env.out_kind == "dash":
         argv.append("-")
     envv = dict(os.environ, PYTHONPATH=REPO, PYTHONDONTWRITEBYTECODE="1")
